@@ -33,6 +33,12 @@ Theorem C14_site_rauw_side_condition : forall l : list (name * name),
 Proof. exact rauw_side_condition. Qed.
 Print Assumptions C14_site_rauw_side_condition.
 
+(* any(...)/all(...) of a read-only predicate over a set *)
+Theorem C14_any_all_over_set_order_irrelevant : forall (A : Type) (p : A -> bool) l l', Permutation l l' ->
+  existsb p l = existsb p l' /\ forallb p l = forallb p l'.
+Proof. exact @any_all_over_set_order_irrelevant. Qed.
+Print Assumptions C14_any_all_over_set_order_irrelevant.
+
 (* S2 S4 S10: graph.remove(list(<set>)) *)
 Theorem C14_remove_list_of_set_order_irrelevant : forall dead dead' g,
   Permutation dead dead' -> remove_producers dead g = remove_producers dead' g.
@@ -187,6 +193,24 @@ Theorem C14_handlers_history_independent_if_guard_per_context : forall h1 h2 r,
   gather_obs_after true h1 r = gather_obs_after true h2 r.
 Proof. exact handlers_history_independent_if_guard_per_context. Qed.
 Print Assumptions C14_handlers_history_independent_if_guard_per_context.
+
+(* ---- (b'') scoped process-wide state (ContextVar _IN_FUNCTION_BUILD): with the restore in `finally` the
+   state after ANY history of succeeding and failing conversions is the initial one ... *)
+Theorem C14_contextvar_restored_on_every_exit : forall h, state_after scoped_finally h = [].
+Proof. exact contextvar_restored_on_every_exit. Qed.
+Print Assumptions C14_contextvar_restored_on_every_exit.
+
+Theorem C14_failed_conversions_do_not_inline : forall h1 h2 f,
+  inlined_after scoped_finally h1 f = inlined_after scoped_finally h2 f.
+Proof. exact failed_conversions_do_not_inline. Qed.
+Print Assumptions C14_failed_conversions_do_not_inline.
+
+(* ... a restore that is skipped by an exception is refuted by ONE failed conversion (the harness tie checks
+   that every .set() of such a variable is paired with a restore in a finally block) *)
+Theorem C14_unprotected_restore_refuted :
+  exists h1 h2 f, inlined_after scoped_unprotected h1 f <> inlined_after scoped_unprotected h2 f.
+Proof. exact unprotected_restore_refuted. Qed.
+Print Assumptions C14_unprotected_restore_refuted.
 
 (* ---- (c) the lowering-signature memo table *)
 Theorem C14_signature_cache_transparent : forall (V : Type) (f : nat -> V) ks t,
